@@ -350,8 +350,10 @@ def _run_scripts(prop, tier, seed, rng, replay, problems, ev, cov, names, discha
     ev["wall_s"] = round(time.time() - t0, 2)
     ev["violations"] = len(reported)
     if not replay:
-        os.makedirs(os.path.join(core.VERIF, "evidence"), exist_ok=True)
-        json.dump(ev, open(os.path.join(core.VERIF, "evidence", pid + ".json"), "w"), indent=1)
+        # evidence/ describes /repo; a run against another tree (VERIF_REPO, seeded changes) reports elsewhere
+        evdir = os.path.join(core.VERIF, "evidence") if "VERIF_REPO" not in os.environ else os.path.join(core.BUILD, "evidence-other-tree")
+        os.makedirs(evdir, exist_ok=True)
+        json.dump(ev, open(os.path.join(evdir, pid + ".json"), "w"), indent=1)
     for l in out_lines:
         print(l)
     if exit_code == 0:
